@@ -625,14 +625,16 @@ def register_whole(R):
     # (an int list, shared by the children: frozen), leave -> the list of the paths of the tips below the node (children in table order).
     # Ghost vocabulary (immutable functions; each is DEFINED where its value is determined):
     #   cp8(x, j)   entry j of the chain registered for x    (defined by ghost code right after the real `enter` call of x)
-    #   hn8(x), hl8(x, i), hp8(x, t)   history of the leave call of x: number of paths it returned, tip of its i-th path, position of
-    #                                  tip t in it            (defined by ghost code right after the real `leave` call of x)
+    #   hn8(x), hl8(x, i), hp8(x, t), hd8(x, i, i2)   history of the leave call of x: number of paths it returned, tip of its i-th path,
+    #                                  position of tip t in it, first position where two of its paths differ
+    #                                  (defined by ghost code right after the real `leave` call of x)
     from contracts.C04 import depth as d8
 
     cp8 = z3.Function("cp8", I_, I_, I_)
     hn8 = z3.Function("hn8", I_, I_)
     hl8 = z3.Function("hl8", I_, I_, I_)
     hp8 = z3.Function("hp8", I_, I_, I_)
+    hd8 = z3.Function("hd8", I_, I_, I_, I_)  # hd8(x, i, i2): first position at which the i-th and the i2-th path of x's value differ
 
     def gp_setup(S):
         return dict(self=wf_tree8(S))
@@ -651,7 +653,7 @@ def register_whole(R):
             raise X.Unsupported("get_paths: the enter callback returned something that is not an int list")
         A, ln = list_view8(ret)
         j = z3.Int(fresh_name("j"))
-        E.assume(z3.ForAll([j], cp8(x, j) == sel(A, j)))
+        E.assume(z3.ForAll([j], cp8(x, j) == sel(A, j), patterns=[cp8(x, j)]))
         E.assumptions.add("ghost definition per enter call of get_paths: cp8(x, j) = entry j of the list the callback returned for x")
 
     def chain_facts(node, dn, P, R_, root, j):
@@ -674,6 +676,8 @@ def register_whole(R):
             ("chain-entries-are-nodes-at-the-depth-of-their-position", z3.ForAll([y, j], z3.Implies(z3.And(ent(y), upto), nodes))),
             ("registered-chain-entries-are-the-chain-entries", z3.ForAll([y, j], z3.Implies(z3.And(ent(y), upto), sel(sel(val, y), j) == cp8(y, j)))),
             ("consecutive-chain-entries-are-parent-and-child", z3.ForAll([y, j], z3.Implies(z3.And(ent(y), 1 <= j, j <= d8(y)), edges), patterns=[sel(P, cp8(y, j))])),
+            ("a-chain-extends-the-chain-of-the-parent",
+             z3.ForAll([y, j], z3.Implies(z3.And(ent(y), y != ctx.root, 0 <= j, j < d8(y)), cp8(y, j) == cp8(sel(P, y), j)), patterns=[cp8(sel(P, y), j)])),
             ("a-node-below-a-left-node-is-left", z3.ForAll([y, j], z3.Implies(z3.And(ent(y), upto, left(cp8(y, j))), left(y)))),
             ("the-value-of-a-left-node-lists-every-entered-tip-below-it",
              z3.ForAll([y, t], z3.Implies(z3.And(left(y), ent(t), ctx.nkids(t) == 0, d8(t) >= d8(y), cp8(t, d8(y)) == y),
@@ -694,6 +698,8 @@ def register_whole(R):
         i, j = z3.Int(fresh_name("i")), z3.Int(fresh_name("j"))
         ti = hl8(x, i)
         ini = z3.And(0 <= i, i < n)
+        i2 = z3.Int(fresh_name("i2"))
+        ti2, e2 = hl8(x, i2), hd8(x, i, i2)
         ends, nodes, edges = chain_facts(ti, d8(ti), ctx.P, ctx.R, ctx.root, j)
         return [
             ("as-many-paths-as-recorded-at-least-one", z3.And(n == hn8(x), n >= 1)),
@@ -702,7 +708,12 @@ def register_whole(R):
             ("every-path-is-the-chain-of-its-tip",
              z3.ForAll([i, j], z3.Implies(z3.And(ini, 0 <= j, j <= d8(ti)), z3.And(sel(sel(V, i), j) == cp8(ti, j), nodes)))),
             ("consecutive-entries-of-every-path-are-parent-and-child",
-             z3.ForAll([i, j], z3.Implies(z3.And(ini, 1 <= j, j <= d8(ti)), edges), patterns=[sel(ctx.P, cp8(ti, j))]))]
+             z3.ForAll([i, j], z3.Implies(z3.And(ini, 1 <= j, j <= d8(ti)), edges), patterns=[sel(ctx.P, cp8(ti, j))])),
+            ("every-path-extends-the-chain-of-the-node", z3.ForAll([i, j], z3.Implies(z3.And(ini, 0 <= j, j <= d8(x)), cp8(ti, j) == cp8(x, j)))),
+            ("paths-in-order-of-the-first-node-in-which-they-differ",
+             z3.ForAll([i, i2], z3.Implies(z3.And(0 <= i, i < i2, i2 < n), z3.And(d8(x) < e2, e2 <= d8(ti), e2 <= d8(ti2), cp8(ti, e2) < cp8(ti2, e2))))),
+            ("paths-agree-before-the-first-node-in-which-they-differ",
+             z3.ForAll([i, i2, j], z3.Implies(z3.And(0 <= i, i < i2, i2 < n, 0 <= j, j < e2), cp8(ti, j) == cp8(ti2, j))))]
 
     def gp_ghost_leave(E, v, x, ctx):
         """definitions of the history functions of THIS leave call (x is left exactly once; nothing else speaks about hn8(x), hl8(x, .), hp8(x, .))"""
@@ -713,26 +724,34 @@ def register_whole(R):
         V, L, n = vw
         i, t = z3.Int(fresh_name("i")), z3.Int(fresh_name("t"))
         E.assume(hn8(x) == n)
-        E.assume(z3.ForAll([i], hl8(x, i) == sel(sel(V, i), sel(L, i) - 1)))
+        E.assume(z3.ForAll([i], hl8(x, i) == sel(sel(V, i), sel(L, i) - 1), patterns=[hl8(x, i)]))
         lc = E.ghost.get("last-chain")
         if lc is not None and lc["src"] is call["args"] and lc["out"].cols[0].eq(V):
             c = cp8(t, d8(x) + 1)
             off, seg, K = lc["off"], lc["seg"], lc["K"]
-            E.assume(z3.ForAll([t], hp8(x, t) == off(ctx.rank(c)) + hp8(c, t)))
+            E.assume(z3.ForAll([t], hp8(x, t) == off(ctx.rank(c)) + hp8(c, t), patterns=[hp8(x, t)]))
+            a, b = z3.Int(fresh_name("a")), z3.Int(fresh_name("b"))
+            E.assume(z3.ForAll([a, b], hd8(x, a, b) == z3.If(seg(a) == seg(b), hd8(ctx.kid(x, seg(a)), a - off(seg(a)), b - off(seg(a))), d8(x) + 1), patterns=[hd8(x, a, b)]))
             # proof steps (each its own obligation): where the entries of the concatenation come from
             ns = call["args"].cols[2]
             ini = z3.And(0 <= i, i < off(K))
             k_, i_ = seg(i), i - off(seg(i))
             kd = ctx.kid(x, k_)
             st = lambda nm, f: E.prove(f"Tree.get_paths/step/{nm}", f, "annotation")
-            st("a-node-that-is-not-a-tip-has-a-first-child-whose-value-has-a-path", z3.And(K >= 1, sel(ns, 0) == hn8(ctx.kid(x, 0)), sel(ns, 0) >= 1))
-            st("the-first-child-contributes-a-path", z3.And(off(1) == sel(ns, 0), off(1) <= off(K)))
-            st("every-position-lies-in-the-segment-of-one-child", z3.ForAll([i], z3.Implies(ini, z3.And(0 <= k_, k_ < K, 0 <= i_, i_ < sel(ns, k_), sel(ns, k_) == hn8(kd)))))
-            st("the-tip-of-an-entry-is-the-tip-recorded-for-the-child", z3.ForAll([i], z3.Implies(ini, hl8(x, i) == hl8(kd, i_))))
-            st("the-chain-of-an-entry-passes-through-its-child", z3.ForAll([i], z3.Implies(ini, z3.And(d8(kd) == d8(x) + 1, cp8(hl8(x, i), d8(x) + 1) == kd))))
+            counting = [hn8, seg, off, ctx.kid, ctx.nkids, ns, x, ctx.n]  # the steps about positions need no other vocabulary
+            sv = lambda nm, f: X.prove_in_vocabulary(E, f"Tree.get_paths/step/{nm}", f, counting)
+            sv("a-node-that-is-not-a-tip-has-a-first-child-whose-value-has-a-path", z3.And(K >= 1, sel(ns, 0) == hn8(ctx.kid(x, 0)), sel(ns, 0) >= 1))
+            sv("the-first-child-contributes-a-path", z3.And(off(1) == sel(ns, 0), off(1) <= off(K)))
+            sv("every-position-lies-in-the-segment-of-one-child", z3.ForAll([i], z3.Implies(ini, z3.And(0 <= k_, k_ < K, 0 <= i_, i_ < sel(ns, k_), sel(ns, k_) == hn8(kd))), patterns=[seg(i)]))
+            st("the-tip-of-an-entry-is-the-tip-recorded-for-the-child", z3.ForAll([i], z3.Implies(ini, hl8(x, i) == hl8(kd, i_)), patterns=[hl8(x, i)]))
+            st("the-chain-of-an-entry-passes-through-its-child", z3.ForAll([i], z3.Implies(ini, z3.And(d8(kd) == d8(x) + 1, cp8(hl8(x, i), d8(x) + 1) == kd)), patterns=[hl8(x, i)]))
+            j = z3.Int(fresh_name("j"))
+            st("the-chain-of-a-child-extends-the-chain-of-the-node",
+               z3.ForAll([i, j], z3.Implies(z3.And(ini, 0 <= j, j <= d8(x)), z3.And(sel(ctx.P, kd) == x, cp8(kd, j) == cp8(sel(ctx.P, kd), j), cp8(kd, j) == cp8(x, j)))))
+            sv("later-positions-come-from-later-children", z3.ForAll([a, b], z3.Implies(z3.And(0 <= a, a < b, b < off(K)), seg(a) <= seg(b))))
         else:
-            E.assume(z3.ForAll([t], hp8(x, t) == 0))
-        E.assumptions.add("ghost definitions per leave call of get_paths: hn8(x) = number of returned paths, hl8(x, i) = last entry of the i-th, hp8(x, t) = offset of the child towards t + position of t in that child's value (0 at a tip)")
+            E.assume(z3.ForAll([t], hp8(x, t) == 0, patterns=[hp8(x, t)]))
+        E.assumptions.add("ghost definitions per leave call of get_paths: hn8(x) = number of returned paths, hl8(x, i) = last entry of the i-th, hp8(x, t) = offset of the child towards t + position of t in that child's value (0 at a tip), hd8(x, i, i2) = that of the common child, else depth of x + 1")
 
     def no_child(t, x):
         r = z3.Int(fresh_name("r"))
@@ -769,6 +788,10 @@ def register_whole(R):
                 return z3.ForAll([i], z3.Implies(ini, z3.And(0 <= last(i), last(i) < n, no_child(t, last(i)))))
             if which == "every-childless-node-ends-a-path":
                 return z3.ForAll([x], z3.Implies(z3.And(0 <= x, x < n, no_child(t, x)), z3.Exists([i], z3.And(ini, last(i) == x))))
+            if which == "paths-ordered-by-the-first-node-in-which-they-differ-children-in-table-order":
+                e = hd8(0, i, i2)
+                return z3.And(z3.ForAll([i, i2], z3.Implies(z3.And(0 <= i, i < i2, i2 < m), z3.And(0 <= e, e < sel(LEN, i), e < sel(LEN, i2), at(i, e) < at(i2, e)))),
+                              z3.ForAll([i, i2, j], z3.Implies(z3.And(0 <= i, i < i2, i2 < m, 0 <= j, j < e), at(i, j) == at(i2, j))))
             if which == "one-path-per-tip":
                 return z3.ForAll([i, i2], z3.Implies(z3.And(0 <= i, i < i2, i2 < m), last(i) != last(i2)))
             raise KeyError(which)
@@ -796,7 +819,7 @@ def register_whole(R):
         x = z3.Int(fresh_name("x"))
         st("a-node-with-children-is-named-as-parent-by-its-first-child", z3.ForAll([x], z3.Implies(z3.And(ctx.R(x), ctx.nkids(x) > 0), z3.And(ctx.R(ctx.kid(x, 0)), sel(P, ctx.kid(x, 0)) == x))))
         st("every-chain-starts-at-the-root", z3.ForAll([x], z3.Implies(ctx.R(x), cp8(x, 0) == 0)))
-        st("depths-are-not-negative", z3.ForAll([x], z3.Implies(ctx.R(x), d8(x) >= d8(0))))
+        X.prove_in_vocabulary(E, "Tree.get_paths/step/depths-are-not-negative", z3.ForAll([x], z3.Implies(ctx.R(x), d8(x) >= d8(0))), [d8, ctx.P, ctx.n])
         st("every-tip-has-a-position-whose-path-ends-at-it", z3.ForAll([x], z3.Implies(z3.And(ctx.R(x), ctx.nkids(x) == 0), z3.And(0 <= hp8(0, x), hp8(0, x) < m, last(hp8(0, x)) == x))))
         st("every-childless-node-has-a-position-whose-path-ends-at-it",
            z3.ForAll([x], z3.Implies(z3.And(ctx.R(x), no_child(t, x)), z3.And(0 <= hp8(0, x), hp8(0, x) < m, last(hp8(0, x)) == x)), patterns=[sel(col(t, "id").arr, x)]))
@@ -809,6 +832,38 @@ def register_whole(R):
         c = cp8(y, j + 1)
         E.prove("Tree.get_paths/step/below-the-node-being-left-means-below-one-of-its-children",
                 z3.ForAll([y, j], z3.Implies(z3.And(sel(ENT, y), 0 <= j, j < d8(y), cp8(y, j) == x), z3.And(sel(ctx.P, c) == x, ctx.R(c), sel(LEFT, c)))), "annotation")
+
+    def gp_hint_order(which):
+        def f(E, vars):
+            """leave step, node with children: two entries of the concatenation come from one child (its order) or from two (earlier child first)"""
+            call, lc, ctx = E.ghost["traverse-last-call"], E.ghost.get("last-chain"), E.ghost["last-traverse-ctx"]
+            if lc is None or lc["src"] is not call["args"]:
+                return
+            x = call["x"]
+            off, seg, K = lc["off"], lc["seg"], lc["K"]
+            a, b, j = z3.Int(fresh_name("a")), z3.Int(fresh_name("b")), z3.Int(fresh_name("j"))
+            rng = z3.And(0 <= a, a < b, b < off(K))
+            e, ta, tb = hd8(x, a, b), hl8(x, a), hl8(x, b)
+            ka, kb = ctx.kid(x, seg(a)), ctx.kid(x, seg(b))
+            vocab = [hl8, hd8, hn8, hp8, cp8, d8, seg, off, ctx.kid, ctx.nkids, ctx.rank, call["args"].cols[2], call["args"].cols[1], x, ctx.P, ctx.n]
+            st = lambda nm, vs, f_: X.prove_in_vocabulary(E, f"Tree.get_paths/step/{nm}", z3.ForAll(vs, f_), vocab)
+            a_, b_ = a - off(seg(a)), b - off(seg(a))
+            if which == "order":
+                same = z3.And(rng, seg(a) == seg(b))
+                st("two-entries-of-one-child-lie-in-its-segment", [a, b], z3.Implies(same, z3.And(0 <= seg(a), seg(a) < K, 0 <= a_, a_ < b_, b < off(seg(a) + 1), b_ < hn8(ka))))
+                st("two-entries-of-one-child-end-at-the-tips-recorded-for-it", [a, b], z3.Implies(same, z3.And(ta == hl8(ka, a_), tb == hl8(kb, b - off(seg(b))), tb == hl8(ka, b_))))
+                st("two-entries-of-one-child-differ-as-recorded-for-it", [a, b], z3.Implies(same, e == hd8(ka, a_, b_)))
+                st("two-entries-of-one-child-differ-where-they-differ-in-its-value", [a, b],
+                   z3.Implies(z3.And(rng, seg(a) == seg(b)), z3.And(e == hd8(ka, a - off(seg(a)), b - off(seg(a))), d8(x) < e, e <= d8(ta), e <= d8(tb), cp8(ta, e) < cp8(tb, e))))
+                st("entries-of-two-children-differ-right-below-the-node-earlier-child-first", [a, b],
+                   z3.Implies(z3.And(rng, seg(a) != seg(b)), z3.And(seg(a) < seg(b), e == d8(x) + 1, e <= d8(ta), e <= d8(tb), cp8(ta, e) == ka, cp8(tb, e) == kb, ka < kb)))
+            else:
+                st("two-entries-of-one-child-agree-where-they-agree-in-its-value", [a, b, j],
+                   z3.Implies(z3.And(rng, seg(a) == seg(b), 0 <= j, j < e), cp8(ta, j) == cp8(tb, j)))
+                st("entries-of-two-children-agree-down-to-the-node", [a, b, j],
+                   z3.Implies(z3.And(rng, seg(a) != seg(b), 0 <= j, j < e), z3.And(j <= d8(x), cp8(ta, j) == cp8(x, j), cp8(tb, j) == cp8(x, j))))
+
+        return f
 
     def gp_hint_leave(E, vars):
         """leave step, node with children: an entered tip below the node lies below exactly one child, whose value lists it"""
@@ -828,7 +883,7 @@ def register_whole(R):
         st("the-position-of-the-tip-lies-in-the-segment-of-that-child", z3.And(off(r) <= hp8(x, t), hp8(x, t) < off(r + 1), off(r + 1) <= off(K), seg(hp8(x, t)) == r))
 
     GP = ["paths-attached-to-this-tree", "every-path-starts-at-the-root", "consecutive-entries-are-parent-and-child", "every-path-ends-at-a-childless-node",
-          "every-childless-node-ends-a-path", "one-path-per-tip"]
+          "every-childless-node-ends-a-path", "one-path-per-tip", "paths-ordered-by-the-first-node-in-which-they-differ-children-in-table-order"]
     R.add(f"{TREE}:Tree.get_paths", prop="C08", setup=gp_setup,
           ensures=[(w, gp_post(w)) for w in GP],
           options=dict(OPTS, traverse_rule=Rule(gp_J, Qe=gp_Qe, Ql=gp_Ql, modifies=[("path_dic", "intlist-by-value")],
@@ -836,6 +891,8 @@ def register_whole(R):
                                                 leave_args=lambda E, K: _fresh_lll(E, K), ghost_enter=gp_ghost_enter, ghost_leave=gp_ghost_leave),
                        hints={"post/every-path-ends-at-a-childless-node": gp_hint, "post/every-childless-node-ends-a-path": gp_hint_complete,
                               "leave/invariant-preserved/a-node-below-a-left-node-is-left": gp_hint_below,
+                              "leave/returned-value-as-specified/paths-in-order-of-the-first-node-in-which-they-differ": gp_hint_order("order"),
+                              "leave/returned-value-as-specified/paths-agree-before-the-first-node-in-which-they-differ": gp_hint_order("agree"),
                               "leave/invariant-preserved/the-value-of-a-left-node-lists-every-entered-tip-below-it": gp_hint_leave}),
           notes="whole function, trees of any size (traverse client rule with list-valued callback results); the input tree is frozen")
 
